@@ -39,7 +39,10 @@
      itself, an int its decimal string (dec_text = Coq's DecimalString printer of Z.to_int), anything else whatever
      the untranslated "$str" of the function table returns (Section variable ext_str of the generated module).
      [l] * n repeats a list.  x.attr = v on an object of a translated class is a store through a path whose last step
-     is a field (SSetAttr: objects are values, the containers along the path are rebuilt). *)
+     is a field (SSetAttr: objects are values, the containers along the path are rebuilt).
+   - set(e) / tuple(e) of a list or tuple (ESetOf / ETupleOf): the distinct elements in order of first occurrence as a
+     VSet (hashable scalars only, else Err 96) / the same elements as a VTuple.  == on sets is NOT modelled (py_eq
+     is false on two VSet): the translator admits set(e) only in slices without ==, !=, in, .index, for (pytrans.py). *)
 From HV Require Import Prelude.
 From Coq Require Import String QArith Qabs.
 From Coq Require DecimalString DecimalZ Ascii.
@@ -180,6 +183,10 @@ Definition repeat_list {A} (l : list A) (n : Z) : list A := List.concat (repeat 
 Definition set_add (l : list val) (v : val) : list val :=
   if existsb (fun y => py_eq y v) l then l else l ++ [v].
 
+(* set(l) for a sequence l: the elements in order of first occurrence (Python's own iteration order of a set is not
+   modelled: a VSet is only asked for membership, its length and its truth value) *)
+Definition set_of (l : list val) : list val := fold_left set_add l [].
+
 Inductive binop := Add | Sub | Mul | FloorDiv | Mod.
 Inductive cmpop := CEq | CNe | CLt | CLe | CGt | CGe.
 
@@ -217,8 +224,10 @@ Inductive expr :=
 | ECopy (a : expr)                        (* a.copy() for a list or dict: lists and dicts are values *)
 | ECounter                                (* collections.Counter() *)
 | ESet                                    (* set() *)
-| EFmt (parts : list expr).               (* an f-string without format specs: each part evaluated and turned into text,
+| EFmt (parts : list expr)                (* an f-string without format specs: each part evaluated and turned into text,
                                              left to right *)
+| ESetOf (a : expr)                       (* set(a) for a list / tuple of hashable scalars (or a set): its distinct elements *)
+| ETupleOf (a : expr).                    (* tuple(a) for a list / tuple: the same elements *)
 
 Inductive lval := LVar (x : string) | LIdx (x : string) (i : expr).
 
@@ -657,6 +666,22 @@ Section Interp.
     | ECounter => Ok (VCounter [])
     | ESet => Ok (VSet [])
     | EFmt l => bind (eval_fmt (fun e' => eval e' en) l) (fun s => Ok (VText s))
+    | ESetOf a =>
+        bind (eval a en) (fun x =>
+          match x with
+          | VSet l => Ok (VSet l)
+          | _ =>
+            match as_seq x with
+            | Some l => if forallb hashable l then Ok (VSet (set_of l)) else Err E_Unsupported
+            | None => Err E_Unsupported
+            end
+          end)
+    | ETupleOf a =>
+        bind (eval a en) (fun x =>
+          match as_seq x with
+          | Some l => Ok (VTuple l)
+          | None => Err E_Unsupported
+          end)
     end.
 
   Inductive outcome :=
